@@ -178,6 +178,11 @@ structure BuiltOk (w : World) : Prop where
   noAnc : ∀ p : Nat, (w.sim p).trigAnc = []
   /-- `input_delays` is a dict: one entry per predecessor -/
   nodup : ∀ q : Nat, ((w.sim q).inputDelays.map (·.1)).Nodup
+  /-- `successors` / `successors_to_wait_for`: started target, the pair's plain (all-zero) delay -/
+  succOk : ∀ p, p < w.sims.length → ∀ sd ∈ (w.sim p).succs,
+    sd.1 < w.sims.length ∧ connectInterval (w.decl p).group (w.decl sd.1).group = some sd.2
+  succWaitOk : ∀ p, p < w.sims.length → ∀ sd ∈ (w.sim p).succsWait,
+    sd.1 < w.sims.length ∧ connectInterval (w.decl p).group (w.decl sd.1).group = some sd.2
   /-- pushed connections: started target, pair's shape, covered by the target's `input_delays` -/
   pushOk : ∀ p, p < w.sims.length → ∀ e ∈ (w.sim p).push,
     e.2.1 < w.sims.length ∧ HasShape e.2.2.1 (w.decl p).group (w.decl e.2.1).group ∧
@@ -188,7 +193,7 @@ structure BuiltOk (w : World) : Prop where
     ∃ d0, lookupTI (w.sim p).inputDelays e.1 = some d0 ∧ d0.tiers ≤ e.2.1.tiers
 
 theorem builtOk_empty : BuiltOk {} := by
-  refine ⟨rfl, ?_, ?_, ?_, ?_, ?_, ?_, ?_, ?_, ?_⟩ <;> intro p <;> simp [World.sim]
+  refine ⟨rfl, ?_, ?_, ?_, ?_, ?_, ?_, ?_, ?_, ?_, ?_, ?_⟩ <;> intro p <;> simp [World.sim]
 
 /-! ### start -/
 
@@ -220,8 +225,20 @@ theorem builtOk_start {w : World} (h : BuiltOk w) (d : SimDecl) : BuiltOk (w.sta
       have hge : w.sims.length + 1 ≤ p := by omega
       rw [List.getElem?_eq_none (by simpa using hge)]
       rfl
-  refine ⟨by simp [World.start, h.len], ?_, ?_, ?_, ?_, ?_, ?_, ?_, ?_, ?_⟩
-  rotate_right 2
+  refine ⟨by simp [World.start, h.len], ?_, ?_, ?_, ?_, ?_, ?_, ?_, ?_, ?_, ?_, ?_⟩
+  rotate_right 4
+  · intro p hp sd hsd
+    rcases hcase p hp with hp' | rfl
+    · rw [sim_start_lt w d hp'] at hsd
+      obtain ⟨h1, h2⟩ := h.succOk p hp' sd hsd
+      exact ⟨by rw [hlen]; exact Nat.lt_succ_of_lt h1, by rw [hdecl _ hp', hdecl _ h1]; exact h2⟩
+    · rw [sim_start_new] at hsd; simp at hsd
+  · intro p hp sd hsd
+    rcases hcase p hp with hp' | rfl
+    · rw [sim_start_lt w d hp'] at hsd
+      obtain ⟨h1, h2⟩ := h.succWaitOk p hp' sd hsd
+      exact ⟨by rw [hlen]; exact Nat.lt_succ_of_lt h1, by rw [hdecl _ hp', hdecl _ h1]; exact h2⟩
+    · rw [sim_start_new] at hsd; simp at hsd
   · intro p hp e he
     rcases hcase p hp with hp' | rfl
     · rw [sim_start_lt w d hp'] at he
@@ -301,8 +318,21 @@ theorem builtOk_initEv {w : World} (h : BuiltOk w) (p : Sid) (t : Nat) : BuiltOk
     split
     · rename_i hq; rw [hq.1]; exact ⟨rfl, rfl, rfl, rfl, rfl, rfl, rfl⟩
     · exact ⟨rfl, rfl, rfl, rfl, rfl, rfl, rfl⟩
-  refine ⟨by simpa using h.len, ?_, ?_, ?_, ?_, ?_, ?_, fun q => by rw [(hfield q).1]; exact h.nodup q, ?_, ?_⟩
-  rotate_right 2
+  have hsucc : ∀ q, ((w.setSim p { w.sim p with next0 := [ofWorld (w.sim p).depth t] }).sim q).succs = (w.sim q).succs ∧
+      ((w.setSim p { w.sim p with next0 := [ofWorld (w.sim p).depth t] }).sim q).succsWait = (w.sim q).succsWait := by
+    intro q
+    rw [hs q]
+    split
+    · rename_i hq; rw [hq.1]; exact ⟨rfl, rfl⟩
+    · exact ⟨rfl, rfl⟩
+  refine ⟨by simpa using h.len, ?_, ?_, ?_, ?_, ?_, ?_, fun q => by rw [(hfield q).1]; exact h.nodup q, ?_, ?_, ?_, ?_⟩
+  rotate_right 4
+  · intro q hq sd hsd
+    rw [(hsucc q).1] at hsd
+    simpa using h.succOk q (by simpa using hq) sd hsd
+  · intro q hq sd hsd
+    rw [(hsucc q).2] at hsd
+    simpa using h.succWaitOk q (by simpa using hq) sd hsd
   · intro q hq e he
     rw [(hfield q).2.2.2.2.2.1] at he
     obtain ⟨h1, h2, d0, h3, h4⟩ := h.pushOk q (by simpa using hq) e he
@@ -339,6 +369,10 @@ structure Step (w w' : World) (src dst : Sid) (port : Port) (delay dmin : TI) (t
   trig : ∀ p, (w'.sim p).triggers = if p = src ∧ trg = true then (w.sim p).triggers ++ [(port, dst, delay)] else (w.sim p).triggers
   req : ∀ p, (w.sim p).outReq ≠ [] → (w'.sim p).outReq ≠ []
   reqSrc : trg = true → (w'.sim src).outReq ≠ []
+  succs : ∀ p sd, sd ∈ (w'.sim p).succs → sd ∈ (w.sim p).succs ∨
+    (p = src ∧ sd.1 = dst ∧ connectInterval (w.decl src).group (w.decl dst).group = some sd.2)
+  succsWait : ∀ p sd, sd ∈ (w'.sim p).succsWait → sd ∈ (w.sim p).succsWait ∨
+    (p = src ∧ sd.1 = dst ∧ connectInterval (w.decl src).group (w.decl dst).group = some sd.2)
   push : ∀ p, (w'.sim p).push = (w.sim p).push ∨
     (p = src ∧ ∃ dport, (w'.sim p).push = (w.sim p).push ++ [(port, dst, delay, dport)])
   pulled : ∀ p, (w'.sim p).pulled = (w.sim p).pulled ∨
@@ -369,11 +403,23 @@ theorem builtOk_step {w w' : World} {src dst : Sid} {port : Port} {delay dmin : 
   have hnew : ∃ d0, lookupTI (w'.sim dst).inputDelays src = some d0 ∧ d0.tiers ≤ delay.tiers := by
     refine ⟨dmin, ?_, hle⟩
     rw [st.inD]; simp only [if_true]; exact lookupTI_insert_same _ _ _
-  refine ⟨by rw [st.decls, st.len]; exact h.len, ?_, ?_, ?_, ?_, ?_, ?_, ?_, ?_, ?_⟩
-  rotate_right 3
+  refine ⟨by rw [st.decls, st.len]; exact h.len, ?_, ?_, ?_, ?_, ?_, ?_, ?_, ?_, ?_, ?_, ?_⟩
+  rotate_right 5
   · intro q; rw [st.inD]; split
     · exact nodup_insertTI _ _ (h.nodup q)
     · exact h.nodup q
+  · intro p hp sd hsd
+    rw [st.len] at hp ⊢
+    rw [hdecl, hdecl]
+    rcases st.succs p sd hsd with hold' | ⟨hps, hsd1, hci⟩
+    · exact h.succOk p hp sd hold'
+    · exact ⟨hsd1 ▸ hd, by rw [hps, hsd1]; exact hci⟩
+  · intro p hp sd hsd
+    rw [st.len] at hp ⊢
+    rw [hdecl, hdecl]
+    rcases st.succsWait p sd hsd with hold' | ⟨hps, hsd1, hci⟩
+    · exact h.succWaitOk p hp sd hold'
+    · exact ⟨hsd1 ▸ hd, by rw [hps, hsd1]; exact hci⟩
   · intro p hp e he
     rw [st.len] at hp ⊢
     rw [hdecl, hdecl]
@@ -550,6 +596,20 @@ theorem srcUpd_pp (w : World) (c : ConnectCall) (sattr dattr : Nat) (delay plain
   simp only
   cases c.init.lookup sattr <;> simp only <;> (repeat' split) <;> simp
 
+theorem dstUpd_succ (w : World) (c : ConnectCall) (sattr dattr : Nat) (delay dmin : TI) :
+    (dstUpd w c sattr dattr delay dmin).succs = (w.sim c.dst).succs ∧
+    (dstUpd w c sattr dattr delay dmin).succsWait = (w.sim c.dst).succsWait := by
+  unfold dstUpd
+  simp only
+  cases c.init.lookup sattr <;> simp only <;> (repeat' split) <;> exact ⟨rfl, rfl⟩
+
+theorem srcUpd_succ (w : World) (c : ConnectCall) (sattr dattr : Nat) (delay plain : TI) (s0 : SimCfg) :
+    (srcUpd w c sattr dattr delay plain s0).succs = insertTI s0.succs c.dst plain ∧
+    (srcUpd w c sattr dattr delay plain s0).succsWait = s0.succsWait := by
+  unfold srcUpd
+  simp only
+  cases c.init.lookup sattr <;> simp only <;> (repeat' split) <;> exact ⟨rfl, rfl⟩
+
 /-- an accepted attribute pair is a `Step` -/
 theorem connectOne_step {w w' : World} {c : ConnectCall} {sa da : Nat}
     (hs : c.src < w.sims.length) (hd : c.dst < w.sims.length) (h : w.connectOne c sa da = .ok w') :
@@ -565,15 +625,17 @@ theorem connectOne_step {w w' : World} {c : ConnectCall} {sa da : Nat}
   rename_i dmin hdmin
   split at h
   · cases h
-  rename_i plain _
+  rename_i plain hplain
   injection h with h
   refine ⟨delay, dmin, hdelay, hdmin, ?_⟩
   obtain ⟨dI, dT, dR, dD, dN, dA⟩ := dstUpd_fields w c sa da delay dmin
   obtain ⟨dP, dPl⟩ := dstUpd_pp w c sa da delay dmin
-  generalize hD : dstUpd w c sa da delay dmin = D at h dI dT dR dD dN dA dP dPl
+  obtain ⟨dS, dSW⟩ := dstUpd_succ w c sa da delay dmin
+  generalize hD : dstUpd w c sa da delay dmin = D at h dI dT dR dD dN dA dP dPl dS dSW
   obtain ⟨sI, sT, sR, sD, sN, sA⟩ := srcUpd_fields w c sa da delay plain ((w.setSim c.dst D).sim c.src)
   obtain ⟨sPl, sP⟩ := srcUpd_pp w c sa da delay plain ((w.setSim c.dst D).sim c.src)
-  generalize hS : srcUpd w c sa da delay plain ((w.setSim c.dst D).sim c.src) = S at h sI sT sR sD sN sA sPl sP
+  obtain ⟨sS, sSW⟩ := srcUpd_succ w c sa da delay plain ((w.setSim c.dst D).sim c.src)
+  generalize hS : srcUpd w c sa da delay plain ((w.setSim c.dst D).sim c.src) = S at h sI sT sR sD sN sA sPl sP sS sSW
   have e1 : ∀ q, (w.setSim c.dst D).sim q = if q = c.dst then D else w.sim q := by
     intro q; rw [sim_setSim]; simp [hd]
   have e2 : ∀ q, w'.sim q = if q = c.src then S else (w.setSim c.dst D).sim q := by
@@ -615,8 +677,28 @@ theorem connectOne_step {w w' : World} {c : ConnectCall} {sa da : Nat}
       · exact Or.inl hh
       · exact Or.inr ⟨rfl, hh⟩
     · exact Or.inl rfl
-  refine ⟨by rw [← h]; rfl, by rw [← h]; simp, ?_, ?_, ?_, ?_, ?_, ?_, ?_, ?_, ?_⟩
-  rotate_right 2
+  have gS : ∀ q, ((w.setSim c.dst D).sim q).succs = (w.sim q).succs ∧ ((w.setSim c.dst D).sim q).succsWait = (w.sim q).succsWait := by
+    intro q; rw [e1]; split
+    · rename_i hq; rw [hq]; exact ⟨dS, dSW⟩
+    · exact ⟨rfl, rfl⟩
+  refine ⟨by rw [← h]; rfl, by rw [← h]; simp, ?_, ?_, ?_, ?_, ?_, ?_, ?_, ?_, ?_, ?_, ?_⟩
+  rotate_right 4
+  · intro p sd hsd
+    rw [e2] at hsd
+    split at hsd
+    · rename_i hp
+      rw [sS, (gS c.src).1] at hsd
+      rcases mem_insertTI hsd with hh | hh
+      · left; rw [hp]; exact hh
+      · right; rw [hh]; exact ⟨hp, rfl, hplain⟩
+    · rw [(gS p).1] at hsd; exact Or.inl hsd
+  · intro p sd hsd
+    rw [e2] at hsd
+    split at hsd
+    · rename_i hp
+      rw [sSW, (gS c.src).2] at hsd
+      left; rw [hp]; exact hsd
+    · rw [(gS p).2] at hsd; exact Or.inl hsd
   · intro p; rw [e2]; split
     · rename_i hp
       rcases sP with hh | hh
@@ -671,6 +753,8 @@ theorem connectAsync_builtOk {w : World} (h : BuiltOk w) {src dst : Sid} (hs : s
       S.depth = (w.sim src).depth ∧ S.next0 = (w.sim src).next0 ∧ S.trigAnc = (w.sim src).trigAnc := by
     subst hS; exact ⟨rfl, rfl, rfl, rfl, rfl, rfl⟩
   have sF2 : S.push = (w.sim src).push ∧ S.pulled = (w.sim src).pulled := by subst hS; exact ⟨rfl, rfl⟩
+  have sF3 : S.succs = insertTI (w.sim src).succs dst delay ∧ S.succsWait = insertTI (w.sim src).succsWait dst delay := by
+    subst hS; exact ⟨rfl, rfl⟩
   obtain ⟨sI, sT, sR, sD, sN, sA⟩ := sF
   have e1 : ∀ q, (w.setSim src S).sim q = if q = src then S else w.sim q := by
     intro q; rw [sim_setSim]; simp [hs]
@@ -684,7 +768,20 @@ theorem connectAsync_builtOk {w : World} (h : BuiltOk w) {src dst : Sid} (hs : s
     intro q; rw [e1]; split
     · rename_i hq; rw [hq]; exact sF2
     · exact ⟨rfl, rfl⟩
-  generalize hw1 : w.setSim src S = w1 at e1 g g2
+  have g3 : ∀ q sd, (sd ∈ ((w.setSim src S).sim q).succs → sd ∈ (w.sim q).succs ∨ (q = src ∧ sd = (dst, delay))) ∧
+      (sd ∈ ((w.setSim src S).sim q).succsWait → sd ∈ (w.sim q).succsWait ∨ (q = src ∧ sd = (dst, delay))) := by
+    intro q sd; rw [e1]; split
+    · rename_i hq
+      rw [hq, sF3.1, sF3.2]
+      constructor
+      · intro hm; rcases mem_insertTI hm with hh | hh
+        · exact Or.inl hh
+        · exact Or.inr ⟨rfl, hh⟩
+      · intro hm; rcases mem_insertTI hm with hh | hh
+        · exact Or.inl hh
+        · exact Or.inr ⟨rfl, hh⟩
+    · exact ⟨Or.inl, Or.inl⟩
+  generalize hw1 : w.setSim src S = w1 at e1 g g2 g3
   have hlen1 : w1.sims.length = w.sims.length := by rw [← hw1]; simp
   have hdecl1 : w1.decls = w.decls := by rw [← hw1]; rfl
   have e2 : ∀ q, (w1.setSim dst { w1.sim dst with inputDelays := insertTI (w1.sim dst).inputDelays src delay }).sim q =
@@ -694,8 +791,26 @@ theorem connectAsync_builtOk {w : World} (h : BuiltOk w) {src dst : Sid} (hs : s
   · intro old hold
     have := (h.inShape dst hd (src, old) (lookupTI_mem hold)).2
     exact hz _ (this.2.1.trans hshape.2.1.symm)
-  · refine ⟨by simp [hdecl1], by simp [hlen1], ?_, ?_, ?_, ?_, ?_, ?_, ?_, ?_, ?_⟩
-    rotate_right 2
+  · refine ⟨by simp [hdecl1], by simp [hlen1], ?_, ?_, ?_, ?_, ?_, ?_, ?_, ?_, ?_, ?_, ?_⟩
+    rotate_right 4
+    · intro p sd hsd
+      rw [e2] at hsd
+      have hsd' : sd ∈ (w1.sim p).succs := by
+        split at hsd
+        · rename_i hp; rw [hp]; exact hsd
+        · exact hsd
+      rcases (g3 p sd).1 hsd' with hh | ⟨hh1, hh2⟩
+      · exact Or.inl hh
+      · exact Or.inr ⟨hh1, by rw [hh2], by rw [hh2]; exact hdelay⟩
+    · intro p sd hsd
+      rw [e2] at hsd
+      have hsd' : sd ∈ (w1.sim p).succsWait := by
+        split at hsd
+        · rename_i hp; rw [hp]; exact hsd
+        · exact hsd
+      rcases (g3 p sd).2 hsd' with hh | ⟨hh1, hh2⟩
+      · exact Or.inl hh
+      · exact Or.inr ⟨hh1, by rw [hh2], by rw [hh2]; exact hdelay⟩
     · intro p; left; rw [e2]; split
       · rename_i hp; rw [hp]; exact (g2 dst).1
       · exact (g2 p).1
